@@ -226,7 +226,33 @@ func structuralFamilies(n int) map[string]string {
 		"entities":                   rep("&amp;&#x3c;&notit;", n),
 		"void_dropped_bare":          rep("<img>", n) + rep("</a>", n),
 		"frames_in_p":                "<p>" + rep("<frame>", n) + "x</p>",
+		"folded_base64_data_uri":     `<img src="data:image/png;base64,` + rep("iVBO\n", n) + `">`,
+		"percent_escapes_in_url":     `<a href="http://x.y/` + rep("%41%zz", n) + `">x</a>`,
+		"style_nested_parens":        `<p style="color: ` + rep("(", n) + rep(")", n) + `">x</p>`,
+
+		"style_unterminated_quotes":   `<p style="font-family: ` + rep("'a", n) + `">x</p>`,
+		"style_comments":              `<p style="` + rep("/* c */ color: red; ", n) + `">x</p>`,
+		"style_backslashes":           `<p style="color: ` + rep("\\", n) + `">x</p>`,
+		"entities_in_attribute":       `<p title="` + rep("&amp;&#x3c;&notit;", n) + `">x</p>`,
+		"long_tag_name":               "<" + rep("a", n) + ">x</" + rep("a", n) + ">",
+		"nul_bytes_and_invalid_utf8":  rep("\x00\xff<b\x00>", n),
+		"custom_elements_distinct":    customEls(n),
+		"same_attribute_repeated_url": "<a " + rep(`href="http://x.y/" `, n) + ">x</a>",
+		"mixed_dropped_and_kept":      rep(`<a><b><a href="/x"><i>`, n) + "x" + rep("</i></a></b></a>", n),
+		"cdata_and_pi":                rep("<![CDATA[x]]><?pi y?>", n),
 	}
+}
+
+func customEls(n int) string {
+	var sb strings.Builder
+	for i := 0; i < n; i++ {
+		fmt.Fprintf(&sb, "<my-e%d class=\"c\">", i)
+	}
+	sb.WriteString("x")
+	for i := n - 1; i >= 0; i-- {
+		fmt.Fprintf(&sb, "</my-e%d>", i)
+	}
+	return sb.String()
 }
 
 func manyAttrs(n int) string {
@@ -330,6 +356,24 @@ func fixedC14(r *Rec, tier string, shard, nshards int) []*Case {
 				r.NonTrivial("s\x00"+in, nil)
 			}
 		}
+		// ---- comma/space separated CSS lists: every shorthand handler is (after the D4 repair)
+		// quadratic to cubic in the number of components, which the property allows; sizes are kept
+		// where that is ~1.5 s at most (n = 1000), so that only a change of complexity class trips the
+		// 30 s budget
+		for _, n := range []int{100, 300, 1000} {
+			in := `<p style="font-family: ` + rep("arial, ", n) + `serif; background: ` + rep("red, ", n) + `blue; transition: ` + rep("width 1s, ", n) + `height 1s">x</p>`
+			c := &Case{Kind: "family", Input: BStr(in)}
+			res := timedCall(structBudget, func() string { return p.Sanitize(in) })
+			evals++
+			if res.panicked != nil {
+				hardFail(c, r, fmt.Sprintf("C14: Sanitize panics on family css_comma_lists n=%d: %v", n, res.panicked))
+			}
+			if res.timedOut {
+				hardFail(c, r, fmt.Sprintf("C14: Sanitize does not return within %v on family css_comma_lists n=%d (%d bytes)", structBudget, n, len(in)))
+			}
+			record("structural:css_comma_lists", n, len(in), res.elapsed)
+			r.NonTrivial("f\x00css_comma_lists\x00"+itoa(n), nil)
+		}
 		// ---- structural families through the everything policy, n doubling
 		ssizes := []int{100, 1000, 10000, 100000}
 		if tier == "thorough" {
@@ -343,6 +387,11 @@ func fixedC14(r *Rec, tier string, shard, nshards int) []*Case {
 			}
 			sort.Strings(names)
 			for _, name := range names {
+				// the CSS parser (douceur) is quadratic on these two shapes (5 s at n = 100000); they are
+				// run up to n = 10000 only, to keep >= 50x slack under the budget
+				if n > 10000 && (name == "style_nested_parens" || name == "style_unterminated_quotes") {
+					continue
+				}
 				in := fams[name]
 				c := &Case{Kind: "family", Input: BStr(in)}
 				res := timedCall(structBudget, func() string { return p.Sanitize(in) })
